@@ -387,6 +387,9 @@ class Elf(BinFormat):
         D = {}
         symtab = self.readsection(".symtab") or []
         strtab = self.readsection(".strtab")
+        if not isinstance(symtab, list) or (strtab and not isinstance(strtab, StrTable)):
+            # sections named .symtab/.strtab but of another type
+            raise ElfError("symbol or string table section has a wrong type")
         if strtab:
             for sym in symtab:
                 if sym.st_type == t and sym.st_value:
